@@ -100,4 +100,12 @@ CHECKS['C14'] = dict(
          'CLI slice: M, identity-wrapped M, ( M && M ), run-cat-wrapped M and equals between all source kinds must all pass for the same text, with MainPrograms built with mem_buff_size 1 (3, 7).',
     note='Found and repaired KF-C14-SPLITLINES (fix: commit in /repo); KF-C14-CR (universal-newline translation of CR) is a recorded known finding matched by predicate + defect model; '
          'virtual children write through the file descriptor like real ones.')
+CHECKS['C11'] = dict(
+    level='model_checking',
+    technique='explicit-state BFS over histories of cd/env/timeout/next-phase events with deduplication on the reference settings state; each transition executes the whole history through the real CLI with a probe process after every event',
+    text='BFS to depth 4 (thorough 6) over 26 events (cd x4, env set/unset x6 x {both, -of act, -of !act}, timeout x3, next phase): 4146 canonical states / 28331 '
+         'transitions in the quick tier; every transition is one real execution of a generated test case whose probes (and the action to check) must see '
+         'exactly the cwd, environment and timeout the reference machine has after the events before them and none after.',
+    note='Probes are virtual children recording cwd / env / timeout at the subprocess.call seam; dedupe is sound because every transition re-validates the full '
+         'history from a fresh world; a child that chdirs is only in the real-process slices.')
 NOT_APPLICABLE = {}
